@@ -261,6 +261,29 @@ pub fn scenario_open(seed: u64, report: &mut Report, sig: &'static str) -> (Scen
 }
 
 
+/// Directed: a complete version of 13 entries in four hunks (`max_entries_per_hunk` 4), then an interrupted version
+/// in which f03 and f05 were rewritten and f04 deleted, killed after about half of its work — so the point where
+/// the interrupted version's listing continues in its predecessor lies two or three hunks into the predecessor,
+/// with intact hunks between a damaged FIRST hunk and that point.
+pub fn scenario_open_directed(report: &mut Report, sig: &'static str) -> (Scenario, Value) {
+    let mk = |name: &str, kind: NodeKind, m: i64| Node { comps: if name.is_empty() { vec![] } else { vec![name.to_string()] }, kind: kind.clone(), mode: if matches!(kind, NodeKind::Dir) { 0o755 } else { 0o644 }, mtime_ns: 1_650_000_000_000_000_000 + m, uid: 0, gid: 0 };
+    let mut t = Tree::default();
+    t.nodes.insert("/".into(), mk("", NodeKind::Dir, 0));
+    for i in 0..12 {
+        let name = format!("f{i:02}");
+        t.nodes.insert(format!("/{name}"), mk(&name, NodeKind::File(format!("first version of {name}").into_bytes()), i));
+    }
+    let mut t2 = t.clone();
+    for name in ["f03", "f05"] {
+        t2.nodes.insert(format!("/{name}"), mk(name, NodeKind::File(format!("SECOND version of {name}, longer").into_bytes()), 1_000_000_000));
+    }
+    t2.nodes.remove("/f04");
+    let p = BackupParamsLite { hunk: 4, block: 1 << 20, cap: 0 };
+    let steps = vec![Step::SetTree(t), Step::Backup(p.clone()), Step::SetTree(t2), Step::BackupCrash(p, 11, 20)];
+    let case_id = json!({"directed": "interrupted version over a four-hunk predecessor", "history": history_json(&steps)});
+    (build_scenario(&steps, report, &case_id, sig), case_id)
+}
+
 /// A version whose tail file exists but is zero-length (the backup was killed between the two micro-steps of
 /// its last write) carries no hunk count: like a version without tail, the loss of its LAST hunk cannot be told
 /// from an earlier kill.  (Props/C09 `open_band_trailing_hunk_loss_undetectable`; validate must stay silent on
@@ -515,7 +538,7 @@ pub fn run_c10(tier: &str, seed: u64, report: &mut Report) {
     let n_scen = if thorough { 10 } else { 2 };
     for sidx in 0..n_scen {
         let case_seed = seed.wrapping_mul(2971215073).wrapping_add(sidx as u64);
-        let (sc, case_id) = if sidx % 2 == 1 { scenario_open(case_seed, report, "dmg-prefix") } else { scenario(case_seed, report, "dmg-prefix") };
+        let (sc, case_id) = if sidx == 1 { report.hit("directed:open-version-over-four-hunk-predecessor"); scenario_open_directed(report, "dmg-prefix") } else if sidx % 2 == 1 { scenario_open(case_seed, report, "dmg-prefix") } else { scenario(case_seed, report, "dmg-prefix") };
         let mut rng = Rng::new(case_seed ^ 0x10);
         // interrupted versions (head, no tail): what they restore to BEFORE the damage
         let pre_map0 = state_map(&sc.pre_state);
@@ -620,6 +643,33 @@ pub fn run_c10(tier: &str, seed: u64, report: &mut Report) {
                 if last_hunk.as_deref() == Some(dc.rel.as_str()) && matches!(dc.damage, Damage::Delete | Damage::Truncate0) {
                     report.hit("undetectable:trailing-hunk-of-open-version");
                     continue;
+                }
+                // "in every version that still opens, each file whose index hunk and blocks are untouched restores
+                // exactly" — also in an interrupted version, whose entries come from its own hunks and, after its last
+                // recorded path, from its predecessors': a file that NO band's damaged hunk or block touches (and that
+                // does not lie below a directory whose entry was lost) must come back as before the damage, whatever
+                // errors are reported about the damaged file; and when the damage is in another band, nothing the
+                // version did not hold before may appear
+                if fc == "hunk" || fc == "block" {
+                    let got: BTreeMap<&str, &Obs> = robs.iter().map(|o| (o.apath.as_str(), o)).collect();
+                    for o in base_obs.iter().filter(|o| o.kind == 'f') {
+                        let touched_any = touched.iter().any(|(_, p)| *p == o.apath);
+                        let below_lost = touched.iter().any(|(_, tp)| tp != "/" && o.apath.starts_with(&format!("{}/", tp.trim_end_matches('/'))));
+                        if touched_any || below_lost {
+                            continue;
+                        }
+                        let restored_ok = got.get(o.apath.as_str()).map(|g| g.content == o.content && g.kind == 'f' && g.mtime_ns == o.mtime_ns).unwrap_or(false);
+                        if !restored_ok {
+                            report.oracle_fail(&format!("damage:untouched-file-harmed-in-open-version:{sigbase}"), case.clone(), "in an interrupted version a file whose hunk and blocks are untouched (in every band) no longer restores as before the damage", json!({"band": band_name(*b), "apath": o.apath, "restored": got.get(o.apath.as_str()).map(|g| String::from_utf8_lossy(&g.content).chars().take(40).collect::<String>())}));
+                            break;
+                        }
+                    }
+                    if !dc.rel.starts_with(&format!("{}/", band_name(*b))) {
+                        let before: BTreeSet<&str> = base_obs.iter().map(|o| o.apath.as_str()).collect();
+                        if let Some(extra) = robs.iter().find(|o| !before.contains(o.apath.as_str())) {
+                            report.oracle_fail(&format!("damage:entry-appears-in-open-version:{sigbase}"), case.clone(), "after damage to another version's file an interrupted version restores a path it did not hold before", json!({"band": band_name(*b), "apath": extra.apath}));
+                        }
+                    }
                 }
                 let any_error = rr.events.iter().any(|e| e.starts_with("event error"));
                 if !any_error && crate::c01::tree_diff(base_obs, robs).is_some() {
